@@ -47,6 +47,12 @@ def _entries(db, qt_of, base_of, defcat_of, thorough):
         "Quantity(cat,u) built directly": lambda s, u: P.outcome(lambda: __import__("barril.units").units.Quantity(cat(u), s)),
         "ObtainQuantity(u,cat,caption)": lambda s, u: P.outcome(ObtainQuantity, s, cat(u), "a caption"),
         "Scalar(v,u,cat) again": lambda s, u: P.outcome(Scalar, 1.5, s, cat(u)),
+        "Convert(qt,u,base,FractionValue) as a number": lambda s, u: P.outcome(
+            lambda: float(db.Convert(qt_of[u], s, base_of[qt_of[u]], __import__("barril.basic.fraction").basic.fraction.FractionValue(3, (1, 2))))),
+        "Convert(qt,base,u,FractionValue) as a number": lambda s, u: P.outcome(
+            lambda: float(db.Convert(qt_of[u], base_of[qt_of[u]], s, __import__("barril.basic.fraction").basic.fraction.FractionValue(3, (1, 2))))),
+        "FractionScalar.GetValue(u)": lambda s, u: P.outcome(lambda: float(FractionScalar(cat(u), value=2.5, unit=base_of[qt_of[u]]).GetValue(s))),
+        "FractionScalar.CreateCopy(unit=u)": lambda s, u: P.outcome(lambda: FractionScalar(cat(u), value=2.5, unit=base_of[qt_of[u]]).CreateCopy(unit=s)),
     }
     return E
 
